@@ -350,7 +350,7 @@ func TestC11(t *testing.T) {
 			"Oracle: the output with each block of generated functions replaced by a placeholder must have the same comment-preserving token sequence as the setup file with converter interfaces replaced by the placeholder (gofmt on both sides); "+
 			"function doc comments = the non-notation lines of the method comment; no build constraint / go:generate / converter notation line survives; imports = exactly the used ones; the package builds without tags. "+
 			"Non-trivial: layout with a package doc, a free-floating comment adjacent to an interface, a comment-less method, a block comment or >= 2 converter interfaces; distinct by setup text.",
-		400, 12000,
+		2400, 40000,
 		func(rt *rapid.T) layoutMeta {
 			f := pg.GenLayoutFile(rt, pg.LayoutProfile{MaxItems: 8, MaxConverters: 3, Comments: true, Unmarked: true, Directives: true})
 			m := layoutMeta{}
